@@ -12,7 +12,7 @@ REPO = os.environ.get('VF_REPO', '/repo')
 sys.path.insert(0, VERIF)
 from vf import replay as vfreplay  # noqa: E402
 
-INC = ['libs/core/include', 'libs/parse/include', 'libs/options/include', 'libs/options/impl/include', 'libs/log/include', 'libs/log/impl/include',
+INC = ['libs/core/include', 'libs/core/impl/include', 'libs/parse/include', 'libs/options/include', 'libs/options/impl/include', 'libs/log/include', 'libs/log/impl/include',
        'libs/filesystem/include', 'libs/boost/include', 'libs/catch/include', '_build/include']
 NCPU = int(os.environ.get('VF_JOBS', '14'))
 MODEL_LIMIT = ('memmove model bound', 'memset model bound')
